@@ -1,6 +1,7 @@
 package main
 
 import (
+	"go/types"
 	"fmt"
 	"strings"
 
@@ -421,10 +422,33 @@ func enumerateRejections(P *Program, R *Report, rule, key string, fn *ssa.Functi
 			if p.Succs[1] == b {
 				want = False
 			}
+			// a block of checks extracted into an unexported helper of the same receiver: its branches count
+			if c, _ := callAndResult(normAtom(Atom{Fn: fn, V: iff.Cond, Want: want}).V); c != nil && normAtom(Atom{Fn: fn, V: iff.Cond, Want: want}).Want == False {
+				if g := staticCallee(c); g != nil && g != fn && g.Blocks != nil && g.Pkg == fn.Pkg && g.Object() != nil && !g.Object().Exported() && sameReceiver(fn, g) {
+					if rs := g.Signature.Results(); rs.Len() == 1 && rs.At(0).Type().String() == "bool" {
+						var m int
+						bindCall(c, g, func() { m = enumerateRejections(P, R, rule, key, g, classify) })
+						if m > 0 {
+							n += m
+							continue
+						}
+					}
+				}
+			}
 			n++
 			what, ok2 := classify(Atom{Fn: fn, V: iff.Cond, Want: want})
 			R.decide(rule, fmt.Sprintf("%s:reject:%s", key, what), "a rejecting branch is one of the specified reasons", ok2, "rejects on: "+what+" ["+desc(iff.Cond)+" is "+want.String()+"]", P.Pos(condPos(iff)))
 		}
 	}
 	return n
+}
+
+// sameReceiver: g is a plain function, or a method on the same receiver type as fn.
+func sameReceiver(fn, g *ssa.Function) bool {
+	rg := g.Signature.Recv()
+	if rg == nil {
+		return true
+	}
+	rf := fn.Signature.Recv()
+	return rf != nil && types.Identical(rf.Type(), rg.Type())
 }
